@@ -497,6 +497,68 @@ def clone(schema, data):
     return s, [list(c) for c in data]
 
 
+def terse_cases(rng, n):
+    """schemas obtained from the REAL `parse_scsv_schema` on generated terse strings, with in-domain data
+    (the route of the property's `why_tests_cant` example: the terse parser always emits fill '')"""
+    from pydrex import io as I
+
+    pt = getattr(I, "parse_scsv_schema", None)
+    if pt is None:
+        return []
+    out = []
+    code = {"string": "s", "integer": "i", "float": "f", "boolean": "b", "complex": "c"}
+    for _ in range(n):
+        delim = str(rng.choice([",", ";", "|", "\t", "/"]))
+        missing = str(rng.choice(["-", "NA", "--", "?", "nan"]))
+        used = set()
+        t = "d" + delim + "m" + missing + ":"
+        types = []
+        for _j in range(int(rng.integers(1, 7))):
+            ftype = str(rng.choice(TYPES))
+            name = gen_name(rng, used, delim)
+            spec = "" if (ftype == "string" and rng.random() < 0.4) else code[ftype]
+            fill = None
+            if ftype in ("integer", "float", "complex") or rng.random() < 0.5:
+                fill = {"string": ["", "N/A", "z", "NaN", "true", "010", "-"], "integer": ["0", "-1", "999999", "010"],
+                        "float": ["NaN", "0.0", "1e5", "inf"], "complex": ["NaN", "0", "1+2j"], "boolean": ["", "x"]}[ftype]
+                fill = str(fill[int(rng.integers(0, len(fill)))])
+                spec += ":" + fill
+                if rng.random() < 0.5:
+                    spec += ":" + str(rng.choice(["m", "%", "m/s", "a #b", "it's", ""]))
+            t += name + "(" + spec + ")"
+            types.append(ftype)
+        try:
+            schema = pt(t)
+        except Exception:  # noqa: BLE001
+            continue
+        nr = int(rng.integers(1, 12))
+        data = []
+        ok = True
+        for f, ftype in zip(schema["fields"], types):
+            col = []
+            for _i in range(nr):
+                for _k in range(20):
+                    d = gen_cell(rng, ftype, f.get("fill", ""), delim)
+                    if ftype == "string":
+                        d = d.strip()
+                        if "\n" in d or "\r" in d or d == missing:
+                            continue
+                    elif str(d).strip() == missing:
+                        continue
+                    if ftype == "complex":
+                        fc = complex(f.get("fill", ""))
+                        if (d != d) and (fc != fc) and not _same_nan_pattern(d, fc):
+                            continue
+                    break
+                else:
+                    ok = False
+                col.append(d)
+            data.append(col)
+        if ok:
+            out.append((t, schema, data))
+    return out
+
+
 def hypothesis_cases(rng):
     """Inputs INSIDE the stated domain that violate exactly one extra hypothesis of `save_read_roundtrip`
     (each was derived from the Lean model and is replayed here on the real code). (key, schema, data)."""
@@ -1261,6 +1323,16 @@ def run(ctx, res):
         for c in cases[:3]:
             res.sample({"stream": "valid", **summarise(c.schema, c.data), "bytes_written": len(c.real_save[1]) if c.real_save[0] == "ok" else None})
         read_fault_cases(rng, cases[: (250 if not thorough else 3000)], res)
+        # ---- schemas produced by the real terse parser
+        tcases = []
+        for t, s, d in terse_cases(rng, 80 if not thorough else 1500):
+            tcases.append(Case("terse", "roundtrip:terse_schema", s, d, "roundtrip"))
+            res.count("terse:fields", len(s["fields"]))
+            res.count("terse:string_fields_with_default_fill", sum(1 for f in s["fields"] if f["type"] == "string" and f["fill"] == ""))
+            res.nontrivial((t, repr(d)))
+        process(tcases, res, "terse")
+        if tcases:
+            res.sample({"stream": "terse", "schema_from": "parse_scsv_schema", **summarise(tcases[0].schema, tcases[0].data)})
         # ---- hypothesis replays
         hcases = []
         for _ in range(5 if not thorough else 60):
